@@ -18,6 +18,34 @@ using qsim::LibCall;
 
 enum ROp { R_VALUE = 0, R_TEMPLATE, R_FAULT, R_RENDER, R_TASK, R_TASKRENDER, R_COUNT };
 
+// Some members of a value handed to the renderer become POINTERS to values held elsewhere (SetPointerToValue): the
+// caller's data is then spread over several objects, all of which a render may only read. 'sel' picks up to two
+// members of the root (4 bits each, 0 = none).
+template <typename VT>
+static void make_pointer_members(VT &root, uint64_t sel, std::vector<ArenaObj<VT> *> &pointees) {
+    for (int k = 0; k < 2 && sel != 0; k++, sel /= 16) {
+        uint64_t pick = sel % 16;
+        if (pick == 0) continue;
+        VT *child = nullptr;
+        {
+            LibCall lc;
+            if (!(root.IsObject() || root.IsArray())) return;
+            Qentem::SizeT n = root.Size();
+            if (n == 0) return;
+            child = root.GetValue((Qentem::SizeT)(pick % n));
+            if (child == nullptr || child->IsUndefined()) continue;
+        }
+        auto *p = new ArenaObj<VT>(); // (harness allocations stay outside the library-call bracket)
+        pointees.push_back(p);
+        {
+            LibCall lc;
+            new (p->p) VT(static_cast<VT &&>(*child));
+            child->SetPointerToValue(p->p);
+        }
+        qsim::probe("render.value-with-pointer-member");
+    }
+}
+
 struct Ctx {
     int    width{1};
     size_t renders{0};
@@ -40,18 +68,21 @@ struct RenderW {
     U32                         tmpl;
     std::vector<Fault>          pending;
     std::vector<ArenaObj<VT> *> values;
+    std::vector<ArenaObj<VT> *> pointees; // targets of pointer members (owned here, not by the values)
 
     explicit RenderW(Ctx &c) : cx(c) {
     }
     void teardown() {
-        for (auto *v : values) {
-            {
-                LibCall lc;
-                (*v)->~VT();
+        for (auto *list : {&values, &pointees}) {
+            for (auto *v : *list) {
+                {
+                    LibCall lc;
+                    (*v)->~VT();
+                }
+                delete v;
             }
-            delete v;
+            list->clear();
         }
-        values.clear();
     }
 
     void add_value(const Op &op) {
@@ -84,6 +115,7 @@ struct RenderW {
                 }
             }
         }
+        make_pointer_members(**v, (uint64_t)op.a[1], pointees);
         values.push_back(v);
     }
 
@@ -355,6 +387,7 @@ struct ConcW {
     };
     Ctx                        &cx;
     std::vector<ArenaObj<VT> *> values;
+    std::vector<ArenaObj<VT> *> pointees;
     std::vector<U32>            ref;
     ArenaText<C>                text;
     ArenaObj<Tags>              cache;
@@ -383,6 +416,7 @@ struct ConcW {
                         else
                             new (v->p) VT(Qentem::JSON::Parse((const C *)buf.ptr, (SizeT)buf.len));
                     }
+                    make_pointer_members(**v, (uint64_t)op.a[1], pointees);
                     values.push_back(v);
                     break;
                 }
@@ -518,12 +552,14 @@ struct ConcW {
             LibCall lc;
             cache->~Tags();
         }
-        for (auto *v : values) {
-            {
-                LibCall lc;
-                (*v)->~VT();
+        for (auto *list : {&values, &pointees}) {
+            for (auto *v : *list) {
+                {
+                    LibCall lc;
+                    (*v)->~VT();
+                }
+                delete v;
             }
-            delete v;
         }
         text.reset();
     }
@@ -548,6 +584,7 @@ static void gen_values_and_template(Plan &plan, Rng &cfg, Rng &ops, bool &root_a
             to_json(n, js);
             op.s.push_back(pack_units(js));
             if (!conc && cfg.chance(1, 3)) op.a[0] = (int64_t)ops.below(256);
+            if (cfg.chance(1, 4)) op.a[1] = (int64_t)ops.below(256); // some members become pointers to values held elsewhere
         }
         plan.ops.push_back(op);
     }
